@@ -138,9 +138,10 @@ class Run:
                 "wall_s": round(wall, 2),
                 "violations": len(self.violations),
             }
-            os.makedirs(os.path.join(VERIF, "evidence"), exist_ok=True)
-            with open(os.path.join(VERIF, "evidence", self.prop + ".json"), "w") as fp:
-                json.dump(ev, fp, indent=1, sort_keys=True)
+            if not os.environ.get("VERIF_NO_EVIDENCE"):
+                os.makedirs(os.path.join(VERIF, "evidence"), exist_ok=True)
+                with open(os.path.join(VERIF, "evidence", self.prop + ".json"), "w") as fp:
+                    json.dump(ev, fp, indent=1, sort_keys=True)
             brief = {k: v for k, v in cov.items() if isinstance(v, (int, float, bool))}
             print(f"[{self.prop}] tier={self.tier} seed={self.seed} wall={wall:.1f}s "
                   f"violations={len(self.violations)} coverage={brief}")
